@@ -1224,6 +1224,11 @@ where
         let bit_index = pos % W::BITS;
         let bits = self.bits.as_ref();
 
+        #[cfg(feature = "verif_hooks")]
+        crate::verif::sched_point(
+            crate::verif::site::BIT_FIELD_GET_LOAD,
+            bits.get_unchecked(word_index) as *const _ as usize,
+        );
         if bit_index + self.bit_width <= W::BITS {
             (bits.get_unchecked(word_index).load(order) >> bit_index) & self.mask
         } else {
@@ -1258,12 +1263,22 @@ where
 
         if bit_index + self.bit_width <= W::BITS {
             // this is consistent
+            #[cfg(feature = "verif_hooks")]
+            crate::verif::sched_point(
+                crate::verif::site::BIT_FIELD_SET_LOAD,
+                bits.get_unchecked(word_index) as *const _ as usize,
+            );
             let mut current = bits.get_unchecked(word_index).load(order);
             loop {
                 let mut new = current;
                 new &= !(self.mask << bit_index);
                 new |= value << bit_index;
 
+                #[cfg(feature = "verif_hooks")]
+                crate::verif::sched_point(
+                    crate::verif::site::BIT_FIELD_SET_CAS,
+                    bits.get_unchecked(word_index) as *const _ as usize,
+                );
                 match bits
                     .get_unchecked(word_index)
                     .compare_exchange(current, new, order, order)
@@ -1273,6 +1288,11 @@ where
                 }
             }
         } else {
+            #[cfg(feature = "verif_hooks")]
+            crate::verif::sched_point(
+                crate::verif::site::BIT_FIELD_SET_LOAD_LO,
+                bits.get_unchecked(word_index) as *const _ as usize,
+            );
             let mut word = bits.get_unchecked(word_index).load(order);
             // try to wait for the other thread to finish
             fence(Ordering::Acquire);
@@ -1281,6 +1301,11 @@ where
                 new &= (W::ONE << bit_index) - W::ONE;
                 new |= value << bit_index;
 
+                #[cfg(feature = "verif_hooks")]
+                crate::verif::sched_point(
+                    crate::verif::site::BIT_FIELD_SET_CAS_LO,
+                    bits.get_unchecked(word_index) as *const _ as usize,
+                );
                 match bits
                     .get_unchecked(word_index)
                     .compare_exchange(word, new, order, order)
@@ -1298,6 +1323,11 @@ where
             // should try to syncronize the threads as much as possible
             compiler_fence(Ordering::SeqCst);
 
+            #[cfg(feature = "verif_hooks")]
+            crate::verif::sched_point(
+                crate::verif::site::BIT_FIELD_SET_LOAD_HI,
+                bits.get_unchecked(word_index + 1) as *const _ as usize,
+            );
             let mut word = bits.get_unchecked(word_index + 1).load(order);
             fence(Ordering::Acquire);
             loop {
@@ -1305,6 +1335,11 @@ where
                 new &= !(self.mask >> (W::BITS - bit_index));
                 new |= value >> (W::BITS - bit_index);
 
+                #[cfg(feature = "verif_hooks")]
+                crate::verif::sched_point(
+                    crate::verif::site::BIT_FIELD_SET_CAS_HI,
+                    bits.get_unchecked(word_index + 1) as *const _ as usize,
+                );
                 match bits
                     .get_unchecked(word_index + 1)
                     .compare_exchange(word, new, order, order)
